@@ -68,6 +68,7 @@ type FuncContract struct {
 	Tokens   map[string]int // monitor counter -> contributions owned by the calling thread at entry
 	Frozen   []Expr         // locations assumed immutable while the function runs
 	UsesLemmas []string     // lemmas this function's proof relies on (assumed here, proved separately)
+	AsHavoc    map[string]bool // callees whose contracts are not applied in this function (abstract call)
 	Line     int
 	File     string
 	// resolved
@@ -378,6 +379,15 @@ func ParseSpecFile(fset *token.FileSet, f *ast.File) (*SpecFile, error) {
 					cur.MemConst = true
 				} else if rest == "lambdaframe" {
 					cur.LambdaFrame = true
+				} else if strings.HasPrefix(rest, "call ") {
+					// abstract call f, g: calls of f and g are heap havocs in this function (their contracts are
+					// neither relied on nor are their preconditions established here)
+					if cur.AsHavoc == nil {
+						cur.AsHavoc = map[string]bool{}
+					}
+					for _, n := range splitTop(strings.TrimPrefix(rest, "call ")) {
+						cur.AsHavoc[strings.TrimSpace(n)] = true
+					}
 				} else {
 					return nil, fmt.Errorf("%s:%d: unknown abstraction %q", sf.Path, d.line, rest)
 				}
